@@ -1900,7 +1900,7 @@ handle_include_directive(const string &args, const YYLTYPE &loc) {
     if (expr[0] == '"' && expr[expr.size() - 1] == '"') {
       filename = expr.substr(1, expr.size() - 2);
 
-      if (_infile->_parent == nullptr) {
+      if (_infile == nullptr || _infile->_parent == nullptr) {
         // If we're currently processing a top-level file, record the include
         // directive.  We don't need to record includes from included files.
         _quote_includes.insert(filename);
@@ -1914,7 +1914,7 @@ handle_include_directive(const string &args, const YYLTYPE &loc) {
         angle_quotes = true;
       }
 
-      if (_infile->_parent == nullptr) {
+      if (_infile == nullptr || _infile->_parent == nullptr) {
         // If we're currently processing a top-level file, record the include
         // directive.  We don't need to record includes from included files.
         _angle_includes.insert(filename);
